@@ -1,7 +1,9 @@
-(* C20 oracle: runs the extracted arena model (Parent/Arena.v: answers) on a labelled tree.
-   T\t<fx>\t<tokens>   fx = 0 (code as it is) | 1 (with the Type2::Unwrap repair); tokens = preorder list of <kind>.<label>.<number of children>, space separated
+(* C20 oracle: runs the extracted arena model (Parent/Arena.v: answers_flat) on a labelled tree.
+   T\t<fx>\t<tokens>   fx = 0 (code as it is) | 1 (with the Type2::Unwrap repair);
+                       tokens = preorder list of <kind>.<label>.<number of children>, space separated
    -> the model's answers, one item per node in preorder: <label returned by the parent query or ->@<position of the
-      first registration of the node's label or -> *)
+      first registration of the node's label or ->.  The token list is parsed into a tree INSIDE the model
+      (Arena.parse_tree), so that the vm_compute slice of the check exercises exactly the same function. *)
 open Parent_model
 let rec pos_of_int n = if n = 1 then XH else if n land 1 = 1 then XI (pos_of_int (n lsr 1)) else XO (pos_of_int (n lsr 1))
 let n_of_int n = if n = 0 then N0 else Npos (pos_of_int n)
@@ -10,32 +12,18 @@ let int_of_n = function N0 -> 0 | Npos p -> int_of_pos p
 let string_of_codes l =
   let b = Buffer.create 256 in
   List.iter (fun c -> Buffer.add_char b (Char.chr (int_of_n c))) l; Buffer.contents b
-exception Bad
-let parse_tree (s : string) : tree =
-  let toks = Array.of_list (List.filter (fun x -> x <> "") (String.split_on_char ' ' s)) in
-  let pos = ref 0 in
-  let rec go () =
-    if !pos >= Array.length toks then raise Bad;
-    let t = toks.(!pos) in
-    incr pos;
-    match String.split_on_char '.' t with
-    | [k; l; n] ->
-      let k = int_of_string k and l = int_of_string l and n = int_of_string n in
-      let cs = List.init n (fun _ -> ()) in
-      let cs = List.map (fun () -> go ()) cs in
-      Node (n_of_int k, n_of_int l, cs)
-    | _ -> raise Bad in
-  let t = go () in
-  if !pos <> Array.length toks then raise Bad;
-  t
+let flat (s : string) : n list =
+  List.concat_map (fun tok ->
+      if tok = "" then [] else List.map (fun x -> n_of_int (int_of_string x)) (String.split_on_char '.' tok))
+    (String.split_on_char ' ' s)
 let () =
   try
     while true do
       let line = input_line stdin in
       match Common.split_tab line with
       | "T" :: fx :: toks :: _ ->
-        (try print_endline (string_of_codes (answers (fx = "1") (parse_tree toks)))
-         with Bad | Failure _ -> print_endline "BADTREE")
+        (try print_endline (string_of_codes (answers_flat (fx = "1") (flat toks)))
+         with Failure _ | Invalid_argument _ -> print_endline "BADTREE")
       | _ -> print_endline "?"
     done
   with End_of_file -> ()
